@@ -333,6 +333,8 @@ def r7_cancellation(ctx):
 
 
 def run(ctx):
+    from . import effects
+    effects.check_property(ctx, "C11")    # R11.E: no operation on shared protocol state outside the reviewed table
     from . import C01 as _C01
     _C01.r9_complete_writes(ctx)     # a short write that is not completed leaves a frame fragment on the wire: every later frame of every stream is mis-parsed
     from . import C01, C05
